@@ -23,7 +23,7 @@ Definition oinv (e : option ds) : Prop := match e with Some d => inv d | None =>
 
 (* what an older entry may become: itself, or itself materialized *)
 Definition same_or_materialized (a b : option ds) : Prop :=
-  b = a \/ exists d, a = Some d /\ b = Some (materialize d).
+  b = a \/ exists d d', a = Some d /\ materialize d = Some d' /\ b = Some d'.
 
 (* the index expression a row selection denotes: only float slice bounds need
    translating (an int k selects like the list [k]) *)
